@@ -3,16 +3,18 @@ use crate::util::*;
 use asca::RuleGroup;
 use serde_json::{json, Value};
 
-pub const RULE_POOL: [&str; 40] = [
+pub const RULE_POOL: [&str; 43] = [
     "a > e", "V > [+long] / _#", "[+cons] > [αvoice] / _[+cons, αvoice]", "C=1 V=2 > 2 1", "* > i / C_C", "a > *", "% > * / _%", "$C > & / _#", "% > [tone:51]", "%:[+stress] > [-stress]",
     "* > 1 / V=1_#", "V > [αhigh] / _CV:[αhigh]", "t > d / V_V", "p > b / #_", "* > $ / V_CV", "$ > * / _V", "CV > &", "V:[+long] > [-long]", "% > [+stress] / #_", "[] > [-voice] / _#",
     "a > ⟨ti⟩ / _#", "%=1 > * / 1_", "{p,t} > {b,d}", "i > j / _V", "C > * / _$", "* > ⟨ta⟩ / #_", "V > [+nasal] / _[+nasal]", "t > t͡s / _i", "ɬ > l", "l > ɬ",
     "a e > i", "V > [tone:5] / _C", "C...C > &", "k > [+round] / _u", "V=1 C > 1:[+long] / _#", "[+voice] > [-voice] / _$", "a > e | p_", "s > z / V_V",
+    // bindings that must not survive from one word to the next
+    "[+cons, αvoice] [+cons, αvoice] > &", "C=1 V 1 > [+long]", "%=1 1 > &",
     // these raise runtime errors on some words
     "{p,t} > {b}", "% > a",
 ];
 /// two fail at parse (`p#a`, `ˈ`), the rest parse; which ones fail at apply depends on the rule
-pub const WORD_POOL: [&str; 11] = ["pa", "ta.pi", "ˈpa.taˌki", "a", "t", "paː", "ła.ta", "ɬa.ta", "p#a", "ˈ", "sa.pa51"];
+pub const WORD_POOL: [&str; 13] = ["pa", "ta.pi", "ˈpa.taˌki", "a", "t", "paː", "ła.ta", "ɬa.ta", "p#a", "ˈ", "sa.pa51", "pad", "tka"];
 
 fn g(rules: &[&str]) -> Vec<RuleGroup> { rules.iter().map(|r| RuleGroup { name: String::new(), rule: vec![r.to_string()], description: String::new() }).collect() }
 fn run(rules: &[RuleGroup], words: &[String]) -> Out<Result<Vec<String>, String>> {
@@ -89,7 +91,7 @@ fn check_rules(rule_texts: &[&str], a: &mut Acc) {
 pub fn run_check() -> i32 {
     let mut r = Report::new("C11");
     let thorough = r.thorough();
-    r.rule = "rule lists = every single rule (thorough: every ordered pair) of a 40-rule pool (alphas, variables, insertion, deletion, metathesis, tone, two that raise runtime errors); word lists = every ordered list of 1..3 words of an 11-word pool (two fail at parse, two are the same word in americanist and in plain IPA spelling, some fail at apply depending on the rule), which contains all their permutations and sublists; lines `u v` and `u v w` for all pool pairs/triples of succeeding words. Oracle: len(out) == len(in), out[i] == run(R,[W[i]])[0], a line is the single-word results joined by one space, a failing list fails with the error of its first failing word (within one phase). Non-trivial = list of >= 2 words.".into();
+    r.rule = "rule lists = every single rule (thorough: every ordered pair) of a 43-rule pool (alphas, variables, insertion, deletion, metathesis, tone, two that raise runtime errors); word lists = every ordered list of 1..3 words of a 13-word pool (incl. a word ending in a partial match of a two-element input and a word starting with a full match) (two fail at parse, two are the same word in americanist and in plain IPA spelling, some fail at apply depending on the rule), which contains all their permutations and sublists; lines `u v` and `u v w` for all pool pairs/triples of succeeding words. Oracle: len(out) == len(in), out[i] == run(R,[W[i]])[0], a line is the single-word results joined by one space, a failing list fails with the error of its first failing word (within one phase). Non-trivial = list of >= 2 words.".into();
     r.assumptions.push("lists mixing parse-phase and apply-phase failures only have to fail (run parses all words before applying any rule; the statement does not rank the phases)".into());
     let mut jobs: Vec<Vec<&str>> = RULE_POOL.iter().map(|x| vec![*x]).collect();
     if thorough { for a in RULE_POOL { for b in RULE_POOL { jobs.push(vec![a, b]); } } }
